@@ -273,7 +273,7 @@ async fn run_case(c: &Case, ctx: &mut WorkerCtx) -> Outcome {
 
     macro_rules! done {
         ($sig:expr, $d:expr) => {{
-            o.fail($sig, format!("{}; case {:?}; pgcat stderr: {}", $d, c, env.pg.stderr_tail(400)));
+            o.fail($sig, format!("{}; case {:?}; pgcat stderr: {}", $d, c, env.pg.stderr_tail(30000).lines().filter(|l| !l.contains("AddressStats") && !l.contains("pgcat::config") && !l.contains("Pool reaper")).collect::<Vec<_>>().join("\n")));
             env.shared.release_all();
             env.finish().await;
             return o;
